@@ -351,6 +351,9 @@ pub fn c09(tier: &str, seed: u64) -> i32 {
     let mut small_chunk_lens: Vec<u64> = (0..=if thorough { 4300 } else { 1100 }).collect();
     small_chunk_lens.extend((4096 - 40)..=(4096 + 8));
     small_chunk_lens.extend((8192 - 24)..=(8192 + 4));
+    // lengths that put the two trailing offset fields of the swept record across the 4 KiB and 8 KiB marks
+    small_chunk_lens.extend(3860..=3900);
+    small_chunk_lens.extend(7956..=7996);
     small_chunk_lens.sort();
     small_chunk_lens.dedup();
     for c in small_chunk_lens.chunks(24) {
